@@ -204,7 +204,7 @@ func checkC30(c *vlib.Ctx) {
 			addCfg(cf, 25)
 		}
 	}
-	for i := 0; i < c.N(450, 6000); i++ {
+	for i := 0; i < c.N(450, 4000); i++ {
 		addCfg(randomConfig(r, 4), 50)
 	}
 	for i := range cfgs {
@@ -300,6 +300,13 @@ func runConfigs(c *vlib.Ctx, cfgs []clusterCfg, workers int) {
 		c.Eval()
 		if len(r.Hops) == 0 || r.Hops[0].Node != r.Entry {
 			c.Inconclusive(fmt.Sprintf("request %s not seen by the entry node's middleware (status %d)", r.Req, r.Status))
+			continue
+		}
+		// The router retries a forward after a transport error or timeout (at-least-once);
+		// on an overloaded machine that is timing, not routing: the same peer sees the same
+		// forwarded request twice. Never a verdict.
+		if len(r.Hops) > 2 && r.Hops[1].Node == r.Hops[2].Node && r.Hops[1].FwdBy == r.Hops[2].FwdBy {
+			c.Inconclusive(fmt.Sprintf("request %s: forwarder retried after a timeout (peer saw it %d times)", r.Req, len(r.Hops)-1))
 			continue
 		}
 		c.Count("requests_"+r.Kind, 1)
